@@ -148,7 +148,8 @@ class LatexEncodingMiddleware(_PyStringTransformerMiddleware):
         try:
             return self._encoder.unicode_to_latex(python_string), ""
         except Exception as e:
-            return python_string, str(e)
+            # (an empty message would be taken for "no error")
+            return python_string, str(e) or repr(e)
 
 
 class LatexDecodingMiddleware(_PyStringTransformerMiddleware):
@@ -215,4 +216,5 @@ class LatexDecodingMiddleware(_PyStringTransformerMiddleware):
         try:
             return self._decoder.latex_to_text(python_string), ""
         except Exception as e:
-            return python_string, str(e)
+            # (an empty message would be taken for "no error")
+            return python_string, str(e) or repr(e)
